@@ -48,13 +48,16 @@ Definition oracle (c : case) : bool :=
   match c_views c with [] => false | _ => forallb (fun v => list_eqb v (c_expect c)) (c_views c) end.
 
 (* proof-relevant situations reached by the model run: 1 an activation by a member that has not
-   been told yet, 2 an activation by one that has, 3 several agents told in one operation *)
+   been told yet, 2 an activation by one that has, 3 several agents told in one operation,
+   4 an activation by the joiner, 5 the asked member refuses an id it knows (D26) *)
 Fixpoint branches_from (m : nat) (s : st) (ops : list op) : list nat :=
   match ops with
   | [] => []
   | o :: r =>
       (match o with
-       | Act who _ _ => if memb who (told s) then [2] else [1]
+       | Act who k sel =>
+           (if Nat.eqb who m then [4] else if memb who (told s) then [2] else [1]) ++
+           (if Nat.eqb who m && jtold s && negb (is_some (jmap s k)) && Nat.ltb sel m && is_some (omaps s sel k) then [5] else [])
        | Tell rs _ => match rs with _ :: _ :: _ => [3] | _ => [] end
        end) ++ branches_from m (fst (step m s o)) r
   end.
